@@ -68,3 +68,172 @@ Proof. unfold rel, hoare. destruct (m w) as [a w'|[why|] w']; auto. Qed.
 Lemma hoare_of_rel2 R1 R2 {A} (m : world -> res A) w :
   rel R1 m w -> rel R2 m w -> hoare m w (fun _ w' => R1 w w' /\ R2 w w') (fun w' => R1 w w' /\ R2 w w').
 Proof. unfold rel, hoare. destruct (m w) as [a w'|[why|] w']; auto. Qed.
+
+(* ---------- explicit world updates ---------- *)
+Definition with_sk (w : world) (s : sock) : world := mkW s (pfx w) (keys w) (evs w) (opens w) (sends w) (now w) (out w).
+Definition with_out (w : world) (o : list titem) : world := mkW (sk w) (pfx w) (keys w) (evs w) (opens w) (sends w) (now w) o.
+Definition with_tables (w : world) (p : list prec) (k : list krec) : world :=
+  mkW (sk w) p k (evs w) (opens w) (sends w) (now w) (out w).
+
+(* ---------- computations that always terminate normally ---------- *)
+Definition total {A} (m : world -> res A) : Prop := forall w, exists a w', m w = Ok a w'.
+Lemma total_ret {A} (a : A) : total (ret a). Proof. intros w. unfold ret. eauto. Qed.
+Lemma total_bind {A B} (m : world -> res A) (f : A -> world -> res B) :
+  total m -> (forall a, total (f a)) -> total (bind m f).
+Proof. intros Hm Hf w. unfold bind. destruct (Hm w) as (a & w' & ->). apply Hf. Qed.
+Lemma total_get_sk : total get_sk. Proof. intros w; unfold get_sk; eauto. Qed.
+Lemma total_get_now : total get_now. Proof. intros w; unfold get_now; eauto. Qed.
+Lemma total_get_w : total get_w. Proof. intros w; unfold get_w; eauto. Qed.
+Lemma total_set_sk s : total (set_sk s). Proof. intros w; unfold set_sk; eauto. Qed.
+Lemma total_emit t : total (emit t). Proof. intros w; unfold emit; eauto. Qed.
+Lemma total_emit_all l : total (emit_all l). Proof. intros w; unfold emit_all; eauto. Qed.
+Lemma total_set_tables p k : total (set_tables p k). Proof. intros w; unfold set_tables; eauto. Qed.
+Lemma total_modify_sk g : total (modify_sk g). Proof. intros w; unfold modify_sk, bind, get_sk, set_sk; eauto. Qed.
+Lemma total_if {A} (b : bool) (m1 m2 : world -> res A) : total m1 -> total m2 -> total (if b then m1 else m2).
+Proof. destruct b; auto. Qed.
+
+Ltac ttac :=
+  repeat match goal with
+  | |- total (ret _) => apply total_ret
+  | |- total get_sk => apply total_get_sk
+  | |- total get_now => apply total_get_now
+  | |- total get_w => apply total_get_w
+  | |- total (set_sk _) => apply total_set_sk
+  | |- total (emit _) => apply total_emit
+  | |- total tr_close => apply total_emit
+  | |- total (emit_all _) => apply total_emit_all
+  | |- total (set_tables _ _) => apply total_set_tables
+  | |- total (modify_sk _) => apply total_modify_sk
+  | |- total (bind _ _) => apply total_bind; [|intros ?]
+  | |- total (if _ then _ else _) => apply total_if
+  | |- total (match ?x with _ => _ end) => destruct x
+  | |- total (let _ := _ in _) => cbv zeta
+  | |- total ((fun _ => _) _) => cbv beta
+  end.
+
+Lemma total_change_state ns : total (change_state ns).
+Proof. unfold change_state. ttac. Qed.
+Lemma total_tr_send b : total (tr_send b).
+Proof. intros w. unfold tr_send. destruct (sends w); destruct (_ <? 0); eauto. Qed.
+Lemma total_tr_send_all_loop fuel : forall b tot, total (tr_send_all_loop fuel b tot).
+Proof.
+  induction fuel as [|f IH]; intros; cbn [tr_send_all_loop]; [apply total_ret|].
+  destruct b as [|x b]; [apply total_ret|]. apply total_bind; [apply total_tr_send|]. intros r. ttac. apply IH.
+Qed.
+Lemma total_send_pdu b : total (send_pdu b).
+Proof. unfold send_pdu, tr_send_all. ttac. apply total_tr_send_all_loop. Qed.
+Lemma total_send_error_pdu enc c t : total (send_error_pdu enc c t).
+Proof. unfold send_error_pdu. ttac. apply total_send_pdu. Qed.
+Lemma total_send_error_from_host enc c t : total (send_error_from_host enc c t).
+Proof. unfold send_error_from_host. ttac; apply total_send_error_pdu. Qed.
+Lemma total_report_update_failure p c k : total (report_update_failure p c k).
+Proof. unfold report_update_failure. ttac; first [apply total_send_error_from_host | apply total_change_state]. Qed.
+Lemma total_src_remove_all : total src_remove_all.
+Proof. unfold src_remove_all. ttac. Qed.
+Lemma total_purge_after_failed_undo : total purge_after_failed_undo.
+Proof. unfold purge_after_failed_undo. ttac. apply total_src_remove_all. Qed.
+Lemma total_purge_outdated : total purge_outdated.
+Proof. unfold purge_outdated. ttac. apply total_src_remove_all. Qed.
+Lemma total_send_serial_query : total send_serial_query.
+Proof. unfold send_serial_query. ttac; first [apply total_send_pdu | apply total_change_state]. Qed.
+Lemma total_send_reset_query : total send_reset_query.
+Proof. unfold send_reset_query. ttac; first [apply total_send_pdu | apply total_change_state]. Qed.
+Lemma total_handle_error_pdu p : total (handle_error_pdu p).
+Proof. unfold handle_error_pdu. ttac; apply total_change_state. Qed.
+
+(* ---------- [okay m w Q]: m terminates normally from w and Q holds of result and final world ---------- *)
+Definition okay {A} (m : world -> res A) (w : world) (Q : A -> world -> Prop) : Prop :=
+  match m w with Ok a w' => Q a w' | Exc _ _ => False end.
+
+Lemma okay_ret {A} (a : A) w (Q : A -> world -> Prop) : Q a w -> okay (ret a) w Q.
+Proof. unfold okay, ret. auto. Qed.
+Lemma okay_bind {A B} (m : world -> res A) (f : A -> world -> res B) w (Q1 : A -> world -> Prop) (Q : B -> world -> Prop) :
+  okay m w Q1 -> (forall a w', Q1 a w' -> okay (f a) w' Q) -> okay (bind m f) w Q.
+Proof. unfold okay, bind. intros H1 H2. destruct (m w) as [a w'|e w']; [apply H2, H1|contradiction]. Qed.
+Lemma okay_conseq {A} (m : world -> res A) w (Q Q' : A -> world -> Prop) :
+  okay m w Q -> (forall a w', Q a w' -> Q' a w') -> okay m w Q'.
+Proof. unfold okay. intros H H1. destruct (m w); auto. Qed.
+Lemma okay_frame R {A} (m : world -> res A) w : total m -> rel R m w -> okay m w (fun _ w' => R w w').
+Proof. unfold okay, rel. intros Ht H. destruct (Ht w) as (a & w' & E). rewrite E in *. exact H. Qed.
+Lemma okay_eq {A} (m : world -> res A) w (Q : A -> world -> Prop) :
+  okay m w Q -> exists a w', m w = Ok a w' /\ Q a w'.
+Proof. unfold okay. destruct (m w) as [a w'|e w']; [eauto|contradiction]. Qed.
+Lemma okay_hoare {A} (m : world -> res A) w (Q : A -> world -> Prop) QX : okay m w Q -> hoare m w Q QX.
+Proof. unfold okay, hoare. destruct (m w) as [a w'|[why|] w']; tauto. Qed.
+
+Lemma okay_get_sk {B} w (f : sock -> world -> res B) (Q : B -> world -> Prop) : okay (f (sk w)) w Q -> okay (bind get_sk f) w Q.
+Proof. intros H; exact H. Qed.
+Lemma okay_get_now {B} w (f : Z -> world -> res B) (Q : B -> world -> Prop) : okay (f (now w)) w Q -> okay (bind get_now f) w Q.
+Proof. intros H; exact H. Qed.
+Lemma okay_get_w {B} w (f : world -> world -> res B) (Q : B -> world -> Prop) : okay (f w) w Q -> okay (bind get_w f) w Q.
+Proof. intros H; exact H. Qed.
+Lemma okay_set_sk {B} w s (f : unit -> world -> res B) (Q : B -> world -> Prop) :
+  okay (f tt) (with_sk w s) Q -> okay (bind (set_sk s) f) w Q.
+Proof. intros H; exact H. Qed.
+Lemma okay_modify_sk {B} w g (f : unit -> world -> res B) (Q : B -> world -> Prop) :
+  okay (f tt) (with_sk w (g (sk w))) Q -> okay (bind (modify_sk g) f) w Q.
+Proof. intros H; exact H. Qed.
+Lemma okay_emit_all {B} w l (f : unit -> world -> res B) (Q : B -> world -> Prop) :
+  okay (f tt) (with_out w (rev l ++ out w)) Q -> okay (bind (emit_all l) f) w Q.
+Proof. intros H; exact H. Qed.
+Lemma okay_set_tables {B} w p k (f : unit -> world -> res B) (Q : B -> world -> Prop) :
+  okay (f tt) (with_tables w p k) Q -> okay (bind (set_tables p k) f) w Q.
+Proof. intros H; exact H. Qed.
+Lemma okay_ret_bind {A B} w (a : A) (f : A -> world -> res B) (Q : B -> world -> Prop) :
+  okay (f a) w Q -> okay (bind (ret a) f) w Q.
+Proof. intros H; exact H. Qed.
+Lemma okay_assoc {A B C} (m : world -> res A) (g : A -> world -> res B) (f : B -> world -> res C) w (Q : C -> world -> Prop) :
+  okay (bind m (fun a => bind (g a) f)) w Q -> okay (bind (bind m g) f) w Q.
+Proof. unfold okay, bind. destruct (m w); auto. Qed.
+
+(* ---------- [hoareE m w Q QE]: normal termination satisfies Q, any interruption (stop event, scripts
+   exhausted) leaves a world satisfying QE ---------- *)
+Definition hoareE {A} (m : world -> res A) (w : world) (Q : A -> world -> Prop) (QE : world -> Prop) : Prop :=
+  match m w with Ok a w' => Q a w' | Exc _ w' => QE w' end.
+Lemma hoareE_bind {A B} (m : world -> res A) (f : A -> world -> res B) w (Q1 : A -> world -> Prop) (Q : B -> world -> Prop) (QE : world -> Prop) :
+  hoareE m w Q1 QE -> (forall a w', Q1 a w' -> hoareE (f a) w' Q QE) -> hoareE (bind m f) w Q QE.
+Proof. unfold hoareE, bind. intros H1 H2. destruct (m w) as [a w'|e w']; [apply H2, H1|exact H1]. Qed.
+Lemma hoareE_conseq {A} (m : world -> res A) w (Q Q' : A -> world -> Prop) (QE QE' : world -> Prop) :
+  hoareE m w Q QE -> (forall a w', Q a w' -> Q' a w') -> (forall w', QE w' -> QE' w') -> hoareE m w Q' QE'.
+Proof. unfold hoareE. intros H H1 H2. destruct (m w); auto. Qed.
+Lemma hoareE_ret {A} (a : A) w (Q : A -> world -> Prop) (QE : world -> Prop) : Q a w -> hoareE (ret a) w Q QE.
+Proof. unfold hoareE, ret. auto. Qed.
+Lemma hoareE_of_rel R {A} (m : world -> res A) w : rel R m w -> hoareE m w (fun _ w' => R w w') (fun w' => R w w').
+Proof. unfold rel, hoareE. destruct (m w); auto. Qed.
+Lemma hoareE_of_rel2 R1 R2 {A} (m : world -> res A) w :
+  rel R1 m w -> rel R2 m w -> hoareE m w (fun _ w' => R1 w w' /\ R2 w w') (fun w' => R1 w w' /\ R2 w w').
+Proof. unfold rel, hoareE. destruct (m w); auto. Qed.
+Lemma hoareE_of_rel3 R1 R2 R3 {A} (m : world -> res A) w :
+  rel R1 m w -> rel R2 m w -> rel R3 m w ->
+  hoareE m w (fun _ w' => R1 w w' /\ R2 w w' /\ R3 w w') (fun w' => R1 w w' /\ R2 w w' /\ R3 w w').
+Proof. unfold rel, hoareE. destruct (m w); auto. Qed.
+Lemma okay_hoareE {A} (m : world -> res A) w (Q : A -> world -> Prop) (QE : world -> Prop) : okay m w Q -> hoareE m w Q QE.
+Proof. unfold okay, hoareE. destruct (m w); tauto. Qed.
+Lemma hoareE_get_sk {B} w (f : sock -> world -> res B) (Q : B -> world -> Prop) (QE : world -> Prop) :
+  hoareE (f (sk w)) w Q QE -> hoareE (bind get_sk f) w Q QE.
+Proof. intros H; exact H. Qed.
+Lemma hoareE_get_now {B} w (f : Z -> world -> res B) (Q : B -> world -> Prop) (QE : world -> Prop) :
+  hoareE (f (now w)) w Q QE -> hoareE (bind get_now f) w Q QE.
+Proof. intros H; exact H. Qed.
+Lemma hoareE_set_sk {B} w s (f : unit -> world -> res B) (Q : B -> world -> Prop) (QE : world -> Prop) :
+  hoareE (f tt) (with_sk w s) Q QE -> hoareE (bind (set_sk s) f) w Q QE.
+Proof. intros H; exact H. Qed.
+Lemma hoareE_modify_sk {B} w g (f : unit -> world -> res B) (Q : B -> world -> Prop) (QE : world -> Prop) :
+  hoareE (f tt) (with_sk w (g (sk w))) Q QE -> hoareE (bind (modify_sk g) f) w Q QE.
+Proof. intros H; exact H. Qed.
+Lemma hoareE_emit {B} w t (f : unit -> world -> res B) (Q : B -> world -> Prop) (QE : world -> Prop) :
+  hoareE (f tt) (with_out w (t :: out w)) Q QE -> hoareE (bind (emit t) f) w Q QE.
+Proof. intros H; exact H. Qed.
+Lemma hoareE_ret_bind {A B} w (a : A) (f : A -> world -> res B) (Q : B -> world -> Prop) (QE : world -> Prop) :
+  hoareE (f a) w Q QE -> hoareE (bind (ret a) f) w Q QE.
+Proof. intros H; exact H. Qed.
+Lemma hoareE_assoc {A B C} (m : world -> res A) (g : A -> world -> res B) (f : B -> world -> res C) w (Q : C -> world -> Prop) (QE : world -> Prop) :
+  hoareE (bind m (fun a => bind (g a) f)) w Q QE -> hoareE (bind (bind m g) f) w Q QE.
+Proof. unfold hoareE, bind. destruct (m w); auto. Qed.
+Lemma hoareE_and {A} (m : world -> res A) w (Q1 Q2 : A -> world -> Prop) (QE1 QE2 : world -> Prop) :
+  hoareE m w Q1 QE1 -> hoareE m w Q2 QE2 -> hoareE m w (fun a w' => Q1 a w' /\ Q2 a w') (fun w' => QE1 w' /\ QE2 w').
+Proof. unfold hoareE. destruct (m w); auto. Qed.
+Lemma hoareE_bind2 {A B} (m : world -> res A) (f : A -> world -> res B) w (Q1 : A -> world -> Prop) (QE1 : world -> Prop)
+      (Q : B -> world -> Prop) (QE : world -> Prop) :
+  hoareE m w Q1 QE1 -> (forall w', QE1 w' -> QE w') -> (forall a w', Q1 a w' -> hoareE (f a) w' Q QE) -> hoareE (bind m f) w Q QE.
+Proof. unfold hoareE, bind. intros H1 HE H2. destruct (m w) as [a w'|e w']; [apply H2, H1|apply HE, H1]. Qed.
